@@ -71,17 +71,10 @@ Definition filter_spe (info : minfo) (pts vals : list row) (fails : list bool) (
              (o_pts o, set_where fails (arr0 (o_lie o)) (arr1 (o_vals o)))
   end.
 
-(* ---------------------------------------------------------------- the two wrappers as they run (C13: the guaranteed
-   minimum at the consumers of the labelling).  _create_epsilon_constraint_failures takes numpy.nanargmin over the rows
-   that are not reported failures; with no such row (every observation reported failed, or no observation) NumPy raises
-   ValueError.  That is the value None here; the other modes never look at the mask in that way. *)
-Definition has_success (fails : list bool) : bool := existsb negb fails.
-Definition reads_successes (info : minfo) : bool := match info with EpsC _ _ _ => true | _ => false end.
-Definition filter_gp_run (info : minfo) (pts vals vars : list row) (fails : list bool) (lie : list Q) : option fout :=
-  if reads_successes info && negb (has_success fails) then None else Some (filter_gp info pts vals vars fails lie).
-Definition filter_spe_run (info : minfo) (pts vals : list row) (fails : list bool) (lie : list Q) : option (list row * list Q) :=
-  if reads_successes info && negb (has_success fails) then None else Some (filter_spe info pts vals fails lie).
-
+(* ---------------------------------------------------------------- C13 at the two wrappers: the guaranteed minimum at
+   the consumers of the labelling.  With the epsilon-constraint method filter_gp / filter_spe above are total: when no
+   observation is reported as a success _create_epsilon_constraint_failures labels nothing (Model/Pareto.v eps_failures)
+   and the minimum-success repair promotes reported failures. *)
 (* how many rows of the Parzen-estimator data still carry their own value / do not carry the lie value *)
 Definition own_count (own out : list Q) : nat :=
   count_true (map (fun p : Q * Q => Qeq_bool (fst p) (snd p)) (combine own out)).
